@@ -116,7 +116,7 @@ type ngLine struct {
 	Port string    `json:"port,omitempty"`
 	S    int       `json:"s"`
 	KK   int       `json:"kk,omitempty"`
-	Val  string    `json:"val,omitempty"`
+	Val  string    `json:"val"`
 	Obs  ngObs     `json:"obs"`
 	H    int       `json:"h"`
 	I    int       `json:"i"`
